@@ -58,19 +58,20 @@ type Failure struct {
 
 // Stats accumulates what a run covered.
 type Stats struct {
-	mu          sync.Mutex
-	Property    string            `json:"property"`
-	Evaluations int               `json:"evaluations"`
-	Nontrivial  map[string]bool   `json:"nontrivial"` // fingerprints of distinct non-trivial cases
-	Labels      map[string]int    `json:"labels"`
-	Samples     []json.RawMessage `json:"samples"`
-	Excluded    int               `json:"excluded"`
-	KnownHits   map[string]int    `json:"known_hits"`
-	Extra       map[string]int    `json:"extra"`
-	Failures    []Failure         `json:"failures"`
-	Notes       []string          `json:"notes"`
-	ReplayMode  bool              `json:"replay_mode"`
-	maxSamples  int
+	mu              sync.Mutex
+	Property        string            `json:"property"`
+	Evaluations     int               `json:"evaluations"`
+	Nontrivial      map[string]bool   `json:"nontrivial"` // fingerprints of distinct non-trivial cases
+	NontrivialCount int               `json:"nontrivial_count"`
+	Labels          map[string]int    `json:"labels"`
+	Samples         []json.RawMessage `json:"samples"`
+	Excluded        int               `json:"excluded"`
+	KnownHits       map[string]int    `json:"known_hits"`
+	Extra           map[string]int    `json:"extra"`
+	Failures        []Failure         `json:"failures"`
+	Notes           []string          `json:"notes"`
+	ReplayMode      bool              `json:"replay_mode"`
+	maxSamples      int
 }
 
 func NewStats(property string) *Stats {
@@ -214,6 +215,14 @@ func (s *Stats) Write(cfg Config, name string) {
 	defer s.mu.Unlock()
 	if cfg.OutDir == "" {
 		return
+	}
+	s.NontrivialCount = len(s.Nontrivial)
+	if len(s.Nontrivial) > 300000 {
+		// too many fingerprints to ship: the driver then falls back to a
+		// conservative count (the largest per-shard count)
+		keep := s.Nontrivial
+		s.Nontrivial = nil
+		defer func() { s.Nontrivial = keep }()
 	}
 	b, err := json.Marshal(s)
 	if err != nil {
